@@ -146,6 +146,8 @@ type world struct {
 	apiWf     bool // only operations the property quantifies over (RemoveValidator has no caller and is not among them)
 	dead      bool // the Go code panicked: the StateDB is in an unspecified state
 	lastPanic string
+	prev      *state.StateDB // the original of the last Copy, and what it showed then: a Copy must be independent
+	prevObs   string
 }
 
 func newWorld() *world {
@@ -162,6 +164,7 @@ func (w *world) reset() {
 	}
 	w.st = st
 	w.statWf, w.sumsWf, w.linksWf, w.apiWf, w.dead = true, true, true, true, false
+	w.prev, w.prevObs = nil, ""
 }
 
 func (w *world) setCfg(c cfgT) {
@@ -422,6 +425,7 @@ func (w *world) exec(line string) (out string, skip bool) {
 		w.st = n
 		return "done", false
 	case "copy":
+		w.prev, w.prevObs = st, w.observe()
 		w.st = st.Copy()
 		return "done", false
 	}
@@ -545,6 +549,15 @@ func (w *world) oracle() (bad string) {
 		}
 	}()
 	st := w.st
+	if w.prev != nil {
+		// operations on a Copy must not show through on the original (statistics, index, records, delegation lists)
+		w.st = w.prev
+		now := w.observe()
+		w.st = st
+		if now != w.prevObs {
+			return fmt.Sprintf("copy: the original changed after operations on its Copy\n  at copy: %s\n  now:     %s", w.prevObs, now)
+		}
+	}
 	if !w.apiWf {
 		return ""
 	}
